@@ -2,7 +2,9 @@
    Only statements, closed by `exact`, with Print Assumptions.  [R evs] is the state of the
    slice model (Keypairs/Model.v) after the event list evs, from a freshly started peer;
    every theorem quantifies over ALL event lists. *)
+From Coq Require Import String.
 From WG Require Import Base.Prelude Gen.Constants Keypairs.Model Keypairs.Spec Keypairs.Check Keypairs.Proofs Keypairs.SpecProofs.
+From WG Require Keypairs.FreshAst Gen.FreshAst Keypairs.FreshAstProofs.
 Local Open Scope N_scope.
 
 (* The numbers the property text names, as the code has them now (nanoseconds). *)
@@ -376,3 +378,41 @@ Example C07_nonvacuous_window :
   map o_init (outs step (fst w) [Tick (166 * sec); Recv 1]) = [false; true] /\
   o_acc (snd (step_window s (Initiate true) 0 8)) = false /\ o_init (snd (step_window s (Initiate true) 0 8)) = true.
 Proof. vm_compute. repeat split; reflexivity. Qed.
+
+(* THE TIE TO THE SOURCE for the two rekey decisions (translator
+   harness/cmd/kkfast, rerun on every check): Gen.FreshAst.kkf_sending_body /
+   kkf_receiving_body are the bodies of Peer.keepKeyFreshSending (send.go) and
+   Peer.keepKeyFreshReceiving (receive.go) as terms of the deep-embedded
+   language of Keypairs/FreshAst.v; inputs: whether a current keypair exists,
+   its counter, its role, its age in ns, the flag sentLastMinuteHandshake;
+   outputs: the calls of SendHandshakeInitiation and the new flag.  Constants
+   are evaluated by the translator from device/constants.go and proved equal
+   to the compiler's values (FreshAstProofs.consts_agree).  For ALL inputs: *)
+Theorem C07_source_rekey_after_send : forall i fl,
+  (Keypairs.FreshAst.run Gen.FreshAst.kkf_sending_body i fl = Some ([false], fl) <->
+   Keypairs.FreshAst.has_key i = true /\
+   (Keypairs.FreshAst.nonce i > 2 ^ 60 \/
+    (Keypairs.FreshAst.is_init i = true /\ Keypairs.FreshAst.age i > 120 * 10 ^ 9)))%Z /\
+  (Keypairs.FreshAst.run Gen.FreshAst.kkf_sending_body i fl = Some ([false], fl) \/
+   Keypairs.FreshAst.run Gen.FreshAst.kkf_sending_body i fl = Some ([], fl)).
+Proof. exact Keypairs.FreshAstProofs.kkf_send. Qed.
+Print Assumptions C07_source_rekey_after_send.
+
+Theorem C07_source_rekey_after_receive : forall i fl,
+  Keypairs.FreshAst.run Gen.FreshAst.kkf_receiving_body i fl = Some ([false], true) <->
+  (Keypairs.FreshAst.has_key i = true /\ fl = false /\ Keypairs.FreshAst.is_init i = true /\
+   Keypairs.FreshAst.age i > 165 * 10 ^ 9)%Z.
+Proof. exact Keypairs.FreshAstProofs.kkf_recv. Qed.
+Print Assumptions C07_source_rekey_after_receive.
+
+Theorem C07_source_receive_is_the_model : forall s n,
+  Model.keep_key_fresh_receiving s =
+  match Keypairs.FreshAst.run Gen.FreshAst.kkf_receiving_body (Keypairs.FreshAstProofs.inp_of s n) (latch s) with
+  | Some ([false], fl) => send_initiation (set_latch s fl)
+  | Some ([], _) => (s, false)
+  | _ => (s, false)
+  end /\
+  (forall c fl, Keypairs.FreshAst.run Gen.FreshAst.kkf_receiving_body (Keypairs.FreshAstProofs.inp_of s n) (latch s) = Some (c, fl) ->
+                (c = [false] /\ fl = true) \/ (c = [] /\ fl = latch s)).
+Proof. exact Keypairs.FreshAstProofs.kkf_recv_model. Qed.
+Print Assumptions C07_source_receive_is_the_model.
